@@ -370,7 +370,8 @@ fn judge<C: Probe>(var: Var, case: &Case, shot: &Shot, r: &Result<Result<(Result
         let d = detail(json!(verdict));
         col.sample(d);
     }
-    let base = format!("C18|{}|{}", var.family(), case.path.name());
+    // signatures distinguish the chip family and "through LoRa" vs "through the adapter" only
+    let base = format!("C18|{}|{}", var.family(), if matches!(case.path, Path::Direct | Path::Rx) { "lora" } else { "adapter" });
     // guard zones: must be intact whatever happened
     let guards_ok = (0..GUARD).all(|i| arena[i] == canary(i)) && (GUARD + case.bufsize..arena.len()).all(|i| arena[i] == canary(i));
     if !guards_ok {
@@ -447,7 +448,7 @@ fn judge<C: Probe>(var: Var, case: &Case, shot: &Shot, r: &Result<Result<(Result
                 return;
             }
             if let Some(j) = (n..case.bufsize).find(|j| buf[*j] != canary(GUARD + *j)) {
-                col.violation(&format!("{}|rest-of-buffer-touched|{}|len{}", base, hdr, lc), "bytes of the caller's buffer beyond the returned length were modified", detail(json!({"first_touched_index": j, "returned_len": n})));
+                col.violation(&format!("{}|rest-of-buffer-touched|{}", base, hdr), "bytes of the caller's buffer beyond the returned length were modified", detail(json!({"first_touched_index": j, "returned_len": n})));
                 return;
             }
             if n == 0 {
